@@ -221,6 +221,7 @@ structure St where
   prev : List Name := []                 -- names `U` of the `_U` in `prev_state_splitter` (flat list)
   cur : OTree := none                    -- `current_splitter`
   comb : List Key := []                  -- explicit combiner
+  ownComb : List Key := []               -- `current_combiner` (substring test on the dotted names, see `Node.ownComb`)
   prevPre : OTree := none                -- `prev_state_splitter_rpn` as cached when the splitter was set
   fullPre : OTree := none                -- `splitter_rpn` as cached when the splitter was set
   ran : Bool := false                    -- `set_input_groups` has run: `*_combiner_all` are available
@@ -248,7 +249,7 @@ def Sts.set (sts : Sts) (n : Name) (s : Option St) : Sts :=
 /-- `current_combiner_all + prev_state_combiner_all` (explicit names before `set_input_groups` has run). -/
 def St.combAll (s : St) : List Key :=
   if s.ran then s.curCombAll ++ s.prevCombAll
-  else (s.comb.filter fun c => c.1 == s.name) ++ (s.comb.filter fun c => c.1 != s.name)
+  else s.ownComb ++ (s.comb.filter fun c => !(s.ownComb.contains c))
 
 /-- `splitter_rpn_final`. -/
 def St.finalTree (s : St) : OTree :=
@@ -389,7 +390,7 @@ def constructPass (sts : Sts) : List Node → M Sts
     if cur.isNone && nd.comb.isEmpty && other.isEmpty then
       constructPass (sts ++ [(nd.name, none)]) rest
     else
-      let s : St := { name := nd.name, cur := cur, comb := nd.comb }
+      let s : St := { name := nd.name, cur := cur, comb := nd.comb, ownComb := nd.ownComb }
       let s ← setTrees sts s
       let s ← if other.isEmpty then pure s else connect sts s other
       constructPass (sts ++ [(nd.name, some s)]) rest
@@ -493,8 +494,8 @@ def sizeOf (nodes : List Node) (k : Key) : Nat :=
 /-- `set_input_groups` (`_merge_previous_groups`, `splits_groups` of the current part, `_add_current_groups`):
     computes `*_combiner_all`; raises what the code raises. -/
 def setInputGroups (sts : Sts) (s : St) : M St := do
-  let curComb := s.comb.filter fun c => c.1 == s.name
-  let prevComb := s.comb.filter fun c => c.1 != s.name
+  let curComb := s.ownComb
+  let prevComb := s.comb.filter fun c => !(s.ownComb.contains c)
   let mut prevAll : List Key := []
   if !s.other.isEmpty then
     prevAll ← if prevComb.isEmpty then pure [] else splitsGroups s.prevPre prevComb
